@@ -711,7 +711,7 @@ def evaluate_cases_with_tlc(case_texts: list[str], tables: dict[str, Any], extra
         f.write("\n".join(body) + TRACE_TAIL)
     with open(os.path.join(d, mod + ".cfg"), "w") as f:
         f.write(TRACE_CFG)
-    r = tlc(mod, mod + ".cfg", cwd=d, workers=1, coverage=False, timeout=1500, heap="2g",
+    r = tlc(mod, mod + ".cfg", cwd=d, workers=1, coverage=False, timeout=900, heap="2g",
             env_extra={"JAVA_TOOL_OPTIONS": "-Xss512m"})  # the fold over a long trace is a deep recursion
     if not r.ok:
         keep = os.path.join(VERIF, "replays", PID)
@@ -989,11 +989,33 @@ def process_cases(args: tuple[list[Case], int, str, dict[str, Any]]) -> dict[str
         metas.append((case, extras, base, b, kept, nfiles, dict(ab.files), ab))
         stats["variants"] += len(kept)
 
-    if texts:
-        results = evaluate_cases_with_tlc(texts, tables, extra_codes, "batch of %d cases from %s" % (len(texts), cases[0].key))
-    else:
-        results = []
+    def evaluate(ts: list[str]) -> list[Any]:
+        """TLC on sub-batches of bounded size; a sub-batch that times out is halved, a single case that does is skipped."""
+        out: list[Any] = []
+        i = 0
+        while i < len(ts):
+            j, size = i, 0
+            while j < len(ts) and (j == i or size + len(ts[j]) < 350_000):
+                size += len(ts[j])
+                j += 1
+            try:
+                out += evaluate_cases_with_tlc(ts[i:j], tables, extra_codes, "batch of %d cases from %s" % (j - i, cases[0].key))
+            except MachineryError as e:
+                if "timeout" not in str(e):
+                    raise
+                if j - i == 1:
+                    skip("tlc-timeout")
+                    out.append(None)
+                else:
+                    mid = (i + j) // 2
+                    out += evaluate(ts[i:mid]) + evaluate(ts[mid:j])
+            i = j
+        return out
+
+    results = evaluate(texts) if texts else []
     for (case, extras, base, b, kept, nfiles, files, ab), res in zip(metas, results):
+        if res is None:
+            continue
         names = {i: p for p, i in files.items()}
 
         def cmp_out(real: dict[int, Any], model: Any) -> str | None:
@@ -1369,6 +1391,8 @@ def main(argv: list[str]) -> int:
     rnd = random.Random(seed)
     ctx = get_context("fork")
     t_phase = time.time()
+    # worker processes leave through os._exit: their scratch directories live under one root the parent removes
+    os.environ["VERIF_SCRATCH"] = scratch("c13-")
 
     def phase(name: str) -> None:
         nonlocal t_phase
